@@ -585,15 +585,15 @@ fn relevant_probes(prop: &str) -> Vec<usize> {
     let v: Vec<P> = match prop {
         "C10" => vec![
             P::RawReadPath, P::BreakPushedBack, P::BreakLeftUnconsumed, P::LookaheadFullCap, P::LookaheadPadded,
-            P::SourceEofEarly, P::ErrorRuns, P::CompleteRuns,
+            P::SourceEofEarly, P::ErrorRuns, P::CompleteRuns, P::NestedParse,
         ],
         "C01" => vec![
             P::RawReadPath, P::BreakPushedBack, P::BreakLeftUnconsumed, P::LookaheadFullCap, P::LookaheadPadded,
-            P::SourceEofEarly, P::ErrorRuns, P::CompleteRuns, P::PeekRepeated, P::CallsAfterEnd, P::LoadSingleMultiDoc,
+            P::SourceEofEarly, P::ErrorRuns, P::CompleteRuns, P::PeekRepeated, P::CallsAfterEnd, P::LoadSingleMultiDoc, P::NestedParse,
         ],
         "C17" => vec![
             P::PeekAtError, P::PeekRepeated, P::CallsAfterEnd, P::LoadSingleMultiDoc, P::AliasPrevDoc, P::ErrorRuns,
-            P::CompleteRuns, P::SourceEofEarly,
+            P::CompleteRuns, P::SourceEofEarly, P::NestedParse,
         ],
         "C18" => vec![
             P::ReadShort, P::ReadEintr, P::ReadHardError, P::ReadEarlyEof, P::ByteTruncate, P::ByteFlip, P::ByteOverwrite,
